@@ -57,6 +57,8 @@ def run(ctx):
             % [a.loc() for a in direct], direct[0].func.loc(direct[0].node) if direct else dm.loc(), instance='no-early-read')
 
   # ---- C05.key
+  if not suffixes:
+    raise AnalysisError('ParserDelegate.macro builds its reference names in a form this rule cannot read (no `<name> + \'/<configurable>\'` found)')
   ctx.check(sorted(suffixes) == sorted(['/' + msel, '/' + csel]), 'C05.key', con,
             'the delegate scopes the reference to %s / %s' % ('/' + msel, '/' + csel),
             'delegate suffixes %s disagree with the registrations %s, %s' % (suffixes, msel, csel), dm.loc(), instance='delegate')
